@@ -214,29 +214,31 @@ func (l *List) M__setitem__(key, value Object) (Object, error) {
 		if err != nil {
 			return nil, err
 		}
+		// Read the new items first: value may be the list itself (or
+		// share its storage), and nothing may change if reading fails.
+		newItems, err := SequenceTuple(value)
+		if err != nil {
+			return nil, err
+		}
 		if step == 1 {
+			// An empty slice whose start lies beyond its stop inserts at start
+			if stop < start {
+				stop = start
+			}
 			// Make a copy of the tail
 			tailSlice := l.Items[stop:]
 			tail := make([]Object, len(tailSlice))
 			copy(tail, tailSlice)
-			l.Items = l.Items[:start]
-			err = l.ExtendSequence(value)
-			if err != nil {
-				return nil, err
-			}
+			l.Items = append(l.Items[:start], newItems...)
 			l.Items = append(l.Items, tail...)
 		} else {
-			newItems, err := SequenceTuple(value)
-			if err != nil {
-				return nil, err
-			}
 			if len(newItems) != slicelength {
 				return nil, ExceptionNewf(ValueError, "attempt to assign sequence of size %d to extended slice of size %d", len(newItems), slicelength)
 			}
-			j := 0
-			for i := start; i < stop; i += step {
+			// count the items rather than comparing with stop: works for
+			// negative steps and cannot overflow for huge steps
+			for i, j := start, 0; j < slicelength; i, j = i+step, j+1 {
 				l.Items[i] = newItems[j]
-				j++
 			}
 		}
 	} else {
@@ -257,18 +259,34 @@ func (a *List) DelItem(i int) {
 // Removes items from a list
 func (a *List) M__delitem__(key Object) (Object, error) {
 	if slice, ok := key.(*Slice); ok {
-		start, stop, step, _, err := slice.GetIndices(len(a.Items))
+		start, stop, step, slicelength, err := slice.GetIndices(len(a.Items))
 		if err != nil {
 			return nil, err
 		}
 		if step == 1 {
-			a.Items = append(a.Items[:start], a.Items[stop:]...)
-		} else {
-			j := 0
-			for i := start; i < stop; i += step {
-				a.DelItem(i - j)
-				j++
+			// An empty slice whose start lies beyond its stop deletes nothing
+			if stop < start {
+				stop = start
 			}
+			a.Items = append(a.Items[:start], a.Items[stop:]...)
+		} else if slicelength > 0 {
+			// Turn a negative step round so the doomed positions ascend
+			if step < 0 {
+				start += (slicelength - 1) * step
+				step = -step
+			}
+			kept := a.Items[:start]
+			for i, j := start, 0; i < len(a.Items); i++ {
+				if j < slicelength && i == start+j*step {
+					j++
+					continue
+				}
+				kept = append(kept, a.Items[i])
+			}
+			for i := len(kept); i < len(a.Items); i++ {
+				a.Items[i] = nil
+			}
+			a.Items = kept
 		}
 	} else {
 		i, err := IndexIntCheck(key, len(a.Items))
